@@ -120,10 +120,15 @@ class Variable:
         Returns:
             tuple: the bounds of the variable
         """
-        min_val = (self.variable.scale(self.min_val)
-                   if self.min_val is not None else None)
-        max_val = (self.variable.scale(self.max_val)
-                   if self.max_val is not None else None)
+        def to_units(value):
+            # bounds live in the same units as `value`
+            if value is None:
+                return None
+            if self.apply_scaling:
+                return self.variable.scale(value)
+            return value
+        min_val = to_units(self.min_val)
+        max_val = to_units(self.max_val)
         return min_val, max_val
 
     def update(self, new_value):
